@@ -68,6 +68,7 @@ type mIn struct {
 	ID   int64
 	Exp  int64
 	Call int64
+	Ret  int64
 }
 type mOut struct {
 	Hit bool
@@ -81,6 +82,9 @@ type mState struct {
 // mayForget: state in {none, v}. Store(v,exp) -> {v, none}; Get -> v legal iff
 // state = v and exp(v) >= call time of the Get; Get -> miss always legal and
 // leaves none; Flush / Del / Clean -> none.
+// One documented extra: "If expirationTime is before time.Now(), Store is an
+// noop" - a Store whose expiry lies before its own return stamp may therefore
+// also leave the state unchanged.
 var mayForgetND = porcupine.NondeterministicModel{
 	Init: func() []interface{} { return []interface{}{mState{}} },
 	Step: func(state, input, output interface{}) []interface{} {
@@ -88,6 +92,9 @@ var mayForgetND = porcupine.NondeterministicModel{
 		in := input.(mIn)
 		switch in.Kind {
 		case opStore:
+			if in.Exp < in.Ret && s.ID != 0 {
+				return []interface{}{mState{ID: in.ID, Exp: in.Exp}, mState{}, s}
+			}
 			return []interface{}{mState{ID: in.ID, Exp: in.Exp}, mState{}}
 		case opFlush, opDel, opClean:
 			return []interface{}{mState{}}
@@ -129,10 +136,10 @@ var mayForget = mayForgetND.ToModel()
 const checkerTimeout = 120 * time.Second
 
 type keyVerdict struct {
-	Result  string  `json:"porcupine"`          // ok | illegal | unknown
-	Class   string  `json:"class,omitempty"`    // direct classification of the first bad lookup
-	BadOp   *opRec  `json:"bad_op,omitempty"`   // the lookup that cannot be explained
-	Because *opRec  `json:"because,omitempty"`  // the store/flush that definitely preceded it
+	Result  string  `json:"porcupine"`           // ok | illegal | unknown
+	Class   string  `json:"class,omitempty"`     // direct classification of the first bad lookup
+	BadOp   *opRec  `json:"bad_op,omitempty"`    // the lookup that cannot be explained
+	Because *opRec  `json:"because,omitempty"`   // the store/flush that definitely preceded it
 	Stored  *opRec  `json:"stored_by,omitempty"` // the store that produced the returned value
 	Linear  []opRec `json:"longest_partial_linearization,omitempty"`
 	Stuck   []opRec `json:"not_linearizable_after_that,omitempty"`
@@ -143,7 +150,7 @@ func toPorcupine(ops []opRec) []porcupine.Operation {
 	for i, o := range ops {
 		h[i] = porcupine.Operation{
 			ClientId: o.G,
-			Input:    mIn{Kind: o.Kind, ID: o.ID, Exp: o.Exp, Call: o.Call},
+			Input:    mIn{Kind: o.Kind, ID: o.ID, Exp: o.Exp, Call: o.Call, Ret: o.Ret},
 			Output:   mOut{Hit: o.Hit, ID: o.ID},
 			Call:     o.Call,
 			Return:   o.Ret,
@@ -187,6 +194,9 @@ func directCheck(ops []opRec) (class string, bad, because, stored *opRec) {
 			}
 			switch x.Kind {
 			case opStore:
+				if x.Exp < x.Ret {
+					continue // documented no-op: an already expired value does not overwrite
+				}
 				return "stale-overwritten", g, x, s
 			case opFlush:
 				return "stale-flushed", g, x, s
@@ -211,7 +221,11 @@ func checkKey(ops []opRec, timeout time.Duration) keyVerdict {
 		v.Result = "unknown"
 	case porcupine.Illegal:
 		v.Result = "illegal"
-		_, info := porcupine.CheckOperationsVerbose(mayForget, h, timeout)
+		vt := timeout
+		if vt > 20*time.Second {
+			vt = 20 * time.Second // the verdict stands; this run only fetches the witness
+		}
+		_, info := porcupine.CheckOperationsVerbose(mayForget, h, vt)
 		parts := info.PartialLinearizations()
 		if len(parts) > 0 {
 			var best []int
@@ -260,6 +274,8 @@ func checkerSelfTest() error {
 		{"overwritten", []opRec{st(1, 100, 1, 2), st(2, 100, 3, 4), hit(1, 100, 5, 6)}, "illegal", "stale-overwritten"},
 		{"flushed", []opRec{st(1, 100, 1, 2), fl(3, 4), hit(1, 100, 5, 6)}, "illegal", "stale-flushed"},
 		{"flush-concurrent", []opRec{st(1, 100, 1, 2), fl(3, 7), hit(1, 100, 5, 6)}, "ok", ""},
+		{"noop-store", []opRec{st(1, 100, 1, 2), st(2, 3, 4, 5), hit(1, 100, 6, 7)}, "ok", ""},
+		{"noop-store-boundary", []opRec{st(1, 100, 1, 2), st(2, 5, 4, 5), hit(1, 100, 6, 7)}, "illegal", "stale-overwritten"},
 		{"never-stored", []opRec{hit(9, 100, 5, 6)}, "illegal", "foreign-value"},
 		{"resurrected", []opRec{st(1, 100, 1, 2), miss(3, 4), hit(1, 100, 5, 6)}, "illegal", ""},
 		{"chain", []opRec{st(1, 100, 1, 2), st(2, 100, 1, 6), hit(2, 100, 3, 4), hit(1, 100, 7, 8), hit(2, 100, 9, 10)}, "illegal", ""},
